@@ -27,6 +27,15 @@ FALSE_VALS = ("0", ("not", ("1",)))
 def _conflict(v0, v1):
     if v0 == v1:
         return False
+    in0 = isinstance(v0, tuple) and v0 and v0[0] == "in"
+    in1 = isinstance(v1, tuple) and v1 and v1[0] == "in"
+    if in0 or in1:
+        if in0 and in1:
+            return not (set(v0[1]) & set(v1[1]))
+        s_, o = (v0[1], v1) if in0 else (v1[1], v0)
+        if isinstance(o, tuple) and o and o[0] == "not":
+            return not (set(s_) - set(o[1]))
+        return o not in s_
     neg0 = isinstance(v0, tuple) and v0 and v0[0] == "not"
     neg1 = isinstance(v1, tuple) and v1 and v1[0] == "not"
     if not neg0 and not neg1:
@@ -94,6 +103,23 @@ def alts(te, t, facts=(), depth=0):
 
 def key_of(t):
     return show(mir.strip_refs(strip(t)), -20)
+
+
+def full_key(te, t, depth=0):
+    """key_of(t), with every in-place mutation `mut[f](x)` spelled out with the other arguments of that call
+    (`v.extend(w)` shows as mut[extend](v){w})"""
+    s = key_of(t)
+    if depth > 4:
+        return s
+    extra = []
+    for x in mir.subterms(t):
+        if x[0] == "mut" and isinstance(x[1], tuple) and x[1]:
+            cs = te.calls_by_bb.get(x[1][0])
+            if cs is not None:
+                for a in cs.args:
+                    if not (isinstance(a, tuple) and a and a[0] == "mutref"):
+                        extra.append(full_key(te, a, depth + 1))
+    return s + ("{" + ", ".join(extra) + "}" if extra else "")
 
 
 def opt_status(facts, t):
